@@ -421,7 +421,7 @@ func checkC13(c *runCtx) {
 	c.assume("sequential consistency between scheduling points (every atomic, mutex, channel operation, go statement and Gosched of the mux files; the fake socket adds points around its blocking write and SetWriteDeadline)",
 		"spin loops are scheduled with the fair-yield rule (a yielding thread is disabled until every thread enabled at that moment has stepped), so starvation by an unfair scheduler is not reported as a livelock",
 		"the TCP mux handles use the same sharedPacketConn wrapper; their routing and teardown are C15's subject")
-	dl := c01deadline(c, 240, 1200)
+	dl := c01deadline(c, 400, 1200)
 	b := 3
 	if !c.quick() {
 		b = 4
